@@ -440,3 +440,82 @@ contract(M + 'ApplicationData.write', params={'self': AD}, result=T.bytes(),
 contract(M + 'ApplicationData.parse', params={'self': AD, 'p': PARSER}, result=T.opaque(), modifies=[('self', 'bytes')],
          ensures=lambda ns: S.And(S.seq_eq(ns.f(ns.self, 'bytes'), pbytes(ns.old)), only_modifies(ns, (ns.self, 'bytes'))),
          raises={}, prop=PROP, doc='takes the whole record body verbatim; never fails')
+
+
+REG.note('C15', 'not_built', 'NewSessionTicket / NewSessionTicket1_0 / EncryptedExtensions and every message carrying an extension '
+         'block: need the TLSExtension.parse dispatch contracts (contracts on extensions.py not written)')
+
+
+# ===========================================================================
+# Round trips (O-rt-K, O-wr-K): K.parse(Parser(K.write(x))) yields the fields of x, consumes everything, and
+# writing the parsed object gives the same bytes.  Handshake messages are parsed from offset 1 (the record layer
+# reads the msg_type byte before dispatching to K.parse).
+# ===========================================================================
+
+def _roundtrip(name, mk_x, mk_y, cls_name, start, same_fields, wf=None, doc='', write_name=None, wf_y=None):
+    @scenario('roundtrip-' + name, PROP, doc=doc or '%s.parse(Parser(%s.write(x))) == x, everything consumed, and '
+              'write(parse(write(x))) == write(x)' % (cls_name, cls_name))
+    def body(api):
+        x = api.make('x', mk_x)
+        y = api.make('y', mk_y)
+        ns0 = api.ns(api.st)
+        if wf is not None:
+            api.st.assume(wf(ns0, x).t)
+        if wf_y is not None:
+            api.st.assume(wf_y(ns0, x, y).t)
+        wq = M + cls_name + '.write'
+        for o in _normal(api, _call(api, wq, write_name, [x], api.st), 'write', allow=(ValueError,)):
+            wire = o.val
+            p, st = _parser_at(api, o.st, wire, start)
+            for o2 in _normal(api, api.call(M + cls_name + '.parse', [y, p], st, inline=False), 'parse'):
+                ns = api.ns(o2.st)
+                api.oblige(o2.st, 'fields-back', same_fields(ns, x, y))
+                api.oblige(o2.st, 'consumed-exactly', ns.f(p, 'index') == S.len_(wire))
+                for o3 in _normal(api, _call(api, wq, write_name, [y], o2.st), 'rewrite'):
+                    api.oblige(o3.st, 'rewrite-identical', S.seq_eq(o3.val, wire))
+    return body
+
+
+def _call(api, qual, cname, args, st):
+    """apply the named (variant) contract of qual, or the plain one"""
+    if cname is None:
+        return api.call(qual, args, st, inline=False)
+    api.called.add(qual)
+    c = [c for c in REG.contracts[qual] if c.name == cname][0]
+    return c.apply(api.ex, args, {}, st, api.fr, None)
+
+
+def _eq_fields(*names):
+    def f(ns, x, y):
+        cs = []
+        for n in names:
+            a, b = ns.f(x, n), ns.f(y, n)
+            cs.append(S.And(S.seq_eq(a, b), S.len_(a) == S.len_(b)) if isinstance(a, VSeq) else a == b)
+        return S.And(*cs)
+    return f
+
+
+_roundtrip('RecordHeader3', RH3, RH3, 'RecordHeader3', 0, _eq_fields('type', 'version', 'length'))
+_roundtrip('Alert', ALERT, ALERT, 'Alert', 0, _eq_fields('level', 'description'))
+_roundtrip('ChangeCipherSpec', CCS, CCS, 'ChangeCipherSpec', 0, _eq_fields('type'))
+_roundtrip('HelloRequest', T.obj(MSG.HelloRequest, handshakeType=T.const(0)), T.obj(MSG.HelloRequest, handshakeType=T.const(0)),
+           'HelloRequest', 1, lambda ns, x, y: True)
+_roundtrip('ServerHelloDone', T.obj(MSG.ServerHelloDone, handshakeType=T.const(14)),
+           T.obj(MSG.ServerHelloDone, handshakeType=T.const(14)), 'ServerHelloDone', 1, lambda ns, x, y: True)
+_roundtrip('KeyUpdate', KU, KU, 'KeyUpdate', 1, _eq_fields('message_type'))
+_roundtrip('Finished', FIN, FIN, 'Finished', 1, _eq_fields('verify_data'),
+           wf=lambda ns, x: S.And(ns.f(x, 'version') >= (3, 0),
+                                  S.implies(ns.f(x, 'version') > (3, 3), ns.f(x, 'hash_length') >= 0),
+                                  # well-formed Finished: verify_data has the size the version prescribes
+                                  S.len_(ns.f(x, 'verify_data')) == S.ite(ns.f(x, 'version') == (3, 0), 36,
+                                                                          S.ite(ns.f(x, 'version') > (3, 3), ns.f(x, 'hash_length'), 12))),
+           wf_y=lambda ns, x, y: S.And(ns.f(y, 'version') == ns.f(x, 'version'), ns.f(y, 'hash_length') == ns.f(x, 'hash_length')))
+_roundtrip('CertificateVerify-tls12', _cv(T.tuple(T.int(), T.int())), _cv(T.tuple(T.int(), T.int())), 'CertificateVerify', 1,
+           _eq_fields('signatureAlgorithm', 'signature'), write_name='CertificateVerify.write[tls12+]',
+           wf=lambda ns, x: ns.f(x, 'version') >= (3, 3), wf_y=lambda ns, x, y: ns.f(y, 'version') == ns.f(x, 'version'))
+_roundtrip('CertificateVerify-pre-tls12', _cv(T.none()), _cv(T.none()), 'CertificateVerify', 1,
+           _eq_fields('signature'), write_name='CertificateVerify.write[pre-tls12]',
+           wf=lambda ns, x: ns.f(x, 'version') < (3, 3), wf_y=lambda ns, x, y: ns.f(y, 'version') == ns.f(x, 'version'))
+_roundtrip('NextProtocol', NP, NP, 'NextProtocol', 1, _eq_fields('next_proto'))
+_roundtrip('Heartbeat', HB, HB, 'Heartbeat', 0, _eq_fields('message_type', 'payload', 'padding'))
+_roundtrip('ApplicationData', AD, AD, 'ApplicationData', 0, _eq_fields('bytes'))
